@@ -121,7 +121,7 @@ Section Sound.
 
   Fixpoint stack_ok (so : bool) (H : list mutex) (stk : list frame) : Prop :=
     match stk with
-    | [] => True
+    | [] => H = []       (* a finished goroutine holds nothing *)
     | fr :: rest => exists E, frame_ok so E H fr /\ stack_ok false E rest
     end.
 
@@ -480,4 +480,64 @@ Proof.
   - unfold nonblocking_ok in H. destruct (reach_inv _ _ _ _ _ H _ Hr) as (_ & He & _). exact He.
   - unfold lockset_ok in H. apply andb_true_iff in H. destruct H as [_ H].
     destruct (reach_inv _ _ _ _ _ H _ Hr) as (_ & He & _). exact He.
+Qed.
+
+(* a goroutine that has finished holds no mutex *)
+Theorem finished_holds_nothing : forall p fuel main,
+  nonblocking_ok p fuel main = true \/ lockset_ok p fuel main = true ->
+  forall s, reach p (init_state main) s ->
+  forall t th, threads s t = Some th -> t_stack th = [] -> t_held th = [].
+Proof.
+  intros p fuel main [H|H] s Hr t th Ht Hs.
+  - unfold nonblocking_ok in H. destruct (reach_inv _ _ _ _ _ H _ Hr) as (_ & _ & Hst).
+    specialize (Hst _ _ Ht). rewrite Hs in Hst. exact Hst.
+  - unfold lockset_ok in H. apply andb_true_iff in H. destruct H as [_ H].
+    destruct (reach_inv _ _ _ _ _ H _ Hr) as (_ & _ & Hst).
+    specialize (Hst _ _ Ht). rewrite Hs in Hst. exact Hst.
+Qed.
+
+(* no hold-and-wait, constructively: under any schedule, a goroutine that holds a mutex can take
+   its next step right now (it is not finished, not at a Lock, channel operation or wait, and the
+   callee of a call exists) — so a mutex is never held by a goroutine that cannot move *)
+Theorem lock_holder_progress : forall p fuel main,
+  nonblocking_ok p fuel main = true ->
+  forall s, reach p (init_state main) s ->
+  forall t th, threads s t = Some th -> t_held th <> [] ->
+  exists c s', step p s t c s'.
+Proof.
+  intros p fuel main Hok s Hr t th Ht Hh. unfold nonblocking_ok in Hok.
+  pose proof (reach_inv _ _ _ _ _ Hok _ Hr) as HI. pose proof HI as (Hf & He & Hst).
+  destruct th as [h stk]. cbn [t_held] in Hh.
+  pose proof (Hst _ _ Ht) as Hs. cbn [t_held t_stack] in Hs.
+  destruct stk as [|[code d] rest]; [cbn in Hs; contradiction|].
+  destruct code as [|i k].
+  - (* end of body *) exists true. destruct d as [|d0 ds]; eexists.
+    + eapply S_pop; eauto.
+    + eapply S_defers; eauto.
+  - destruct (next_checked _ _ _ _ _ _ _ HI Ht (eq_refl : next_instr (mkThread h (mkFrame (i :: k) d :: rest)) = Some i))
+      as (fu & solo & E & d' & Hso & Hnf). cbn [t_held] in Hnf.
+    exists true. destruct i.
+    + (* Lock: impossible while holding *) exfalso. cbn [chk1 a_held may_block] in Hnf.
+      destruct h; [contradiction|]. rewrite orb_true_r in Hnf. contradiction.
+    + eexists. eapply S_unlock; eauto.
+    + eexists. eapply S_defer_unlock; eauto.
+    + eexists. eapply S_defer_call; eauto.
+    + eexists. eapply S_read; eauto.
+    + eexists. eapply S_write; eauto.
+    + eexists. eapply S_go; eauto.
+      destruct (threads s (next_tid s)) as [x|] eqn:Ex; auto.
+      pose proof (Hf _ _ Ex). exfalso. apply (PeanoNat.Nat.lt_irrefl _ H).
+    + exfalso. cbn [chk1 a_held may_block] in Hnf. destruct h; contradiction.
+    + exfalso. cbn [chk1 a_held may_block] in Hnf. destruct h; contradiction.
+    + (* call: the checker has looked the callee up *)
+      cbn [chk1 a_held] in Hnf.
+      destruct (callf p (fun _ _ _ => true) true fu f h) eqn:Ec; [|contradiction].
+      apply callf_true in Ec. destruct Ec as (n & body & _ & Hl & _).
+      eexists. eapply S_call; eauto.
+    + eexists. eapply S_ext; eauto.
+    + eexists. eapply S_if; eauto.
+    + eexists. eapply S_loop; eauto.
+    + destruct d as [|d0 ds]; eexists.
+      * eapply S_pop; eauto.
+      * eapply S_defers; eauto.
 Qed.
